@@ -154,12 +154,16 @@ def find_peaks(data, threshold, *, box_size=3, footprint=None, mask=None,
         data = np.copy(data)  # ndarray
         data[nan_mask] = nanmin(data)
 
+    # pad with the data minimum so that pixels outside of the image can
+    # never be the local maximum (a zero padding hides negative peaks
+    # next to the image edges)
+    cval = np.min(data)
     if footprint is not None:
         data_max = maximum_filter(data, footprint=footprint, mode='constant',
-                                  cval=0.0)
+                                  cval=cval)
     else:
         data_max = maximum_filter(data, size=box_size, mode='constant',
-                                  cval=0.0)
+                                  cval=cval)
 
     peak_goodmask = (data == data_max)  # good pixels are True
 
